@@ -109,7 +109,7 @@ func main() {
 		files, _ := filepath.Glob(filepath.Join(repoRoot, pkg, "*.go"))
 		sort.Strings(files)
 		pkgName, importsInternal := "", false
-		any := false
+		any, foreign := false, false
 		type item struct {
 			fn    string          // name of the generated function re-running the initialiser(s) of one var spec
 			names []string        // variables it assigns
@@ -152,6 +152,20 @@ func main() {
 					}
 					pf.chg = true
 				}
+			}
+			if pkg == *shim {
+				ast.Inspect(af, func(n ast.Node) bool {
+					switch x := n.(type) {
+					case *ast.GoStmt:
+						foreign = true
+					case *ast.SelectorExpr:
+						switch x.Sel.Name {
+						case "AfterFunc", "NewTimer", "NewTicker", "Tick", "Notify":
+							foreign = true
+						}
+					}
+					return true
+				})
 			}
 			for _, d := range af.Decls {
 				switch d := d.(type) {
@@ -305,7 +319,14 @@ func main() {
 		}
 		hooks := "//go:build verif\n\npackage " + pkgName + "\n\n"
 		if importsInternal && pkg != "internal" {
-			hooks += "import \"" + module + "/internal\"\n\n"
+			hooks += "import \"" + module + "/internal\"\n"
+		}
+		if pkg == *shim && foreign {
+			hooks += "import verifsched \"" + module + "/verifsync\"\n"
+		}
+		hooks += "\n"
+		if pkg == *shim && foreign {
+			hooks += "func init() { verifsched.ForeignGoroutines = true } // this package starts goroutines or timers of its own\n\n"
 		}
 		hooks += "// VerifReset puts the hidden package-level state of this package back to what it is in a fresh process (harness seam, injected through -overlay only).\nfunc VerifReset() {\n"
 		if importsInternal && pkg != "internal" {
